@@ -9,6 +9,7 @@ import gen_ser      # noqa: F401
 import gen_alias    # noqa: F401
 import gen_iter     # noqa: F401
 import gen_frozen   # noqa: F401
+import gen_agg      # noqa: F401
 
 
 def generate(suite_name, seed, scale=1.0, tier="quick"):
